@@ -480,12 +480,32 @@ func runC02(c *Ctx) {
 		}
 	}
 
+	// ---------------------------------------------------------------- R11
+	c.rule("R11", "a reply channel is consumed only by the exchange that registered it, and what it receives is what it returns", 4)
+	checkReplyChanConsumers(c, fns)
+
+	// ---------------------------------------------------------------- R12
+	c.rule("R12", "a registered waiter stays registered until its exchange returns (removed only by deferred calls; registered once)", 2)
+	{
+		var ins *ssa.Function
+		for _, w := range p.whoWrites().byField[relTransport+".TraditionalDnsConn.queue"] {
+			if w.Kind == "mapupdate" {
+				ins = w.Fn
+			}
+		}
+		if ins == nil {
+			c.anchorMissing("insert into TraditionalDnsConn.queue")
+		} else {
+			checkWaiterLifetime(c, fns, ins)
+		}
+	}
+
 	// ---------------------------------------------------------------- R10
 	c.rule("R10", "every exchange-path function passes its own context, unchanged, to the inner exchange (no added deadline between the caller and the wait)", 6)
 	checkCallerCtxPassedOn(c, p.funcsIn(relTransport, relUpstream))
 
 	// ---------------------------------------------------------------- R8
-	c.rule("R8", "the stream frame reader takes bytes from the connection only through io.ReadFull (no reply bytes are dropped at EOF)", 1)
+	c.rule("R8", "the stream frame reader takes bytes from the connection only through io.ReadFull on the reader it was given (no reply bytes are dropped at EOF or read ahead)", 2)
 	checkFrameReaderReadFull(c)
 
 	// ---------------------------------------------------------------- R4
